@@ -225,7 +225,7 @@ before it) -/
 theorem accepts_decomp {s : Str} (h : Accepts R s) (hnl : s.getLast? ≠ some '\n') :
     ∃ pr ui H po tl, s = pr ++ '/' :: '/' :: (ui ++ (H ++ (po ++ tl))) ∧
       (pr = [] ∨ ∃ ls, pr = ls ++ [':'] ∧ ∀ c ∈ ls, cLetters.mem c = true) ∧
-      (ui = [] ∨ ∃ w, ui = w ++ ['@']) ∧
+      (ui = [] ∨ ∃ w, ui = w ++ ['@'] ∧ ∀ c ∈ w, cNonSpace.mem c = true) ∧
       Lang hostRe H ∧
       (po = [] ∨ ∃ ds, po = ':' :: ds ∧ ds ≠ [] ∧ ∀ c ∈ ds, cDigit.mem c = true) ∧
       (tl = [] ∨ ∃ d r, tl = d :: r ∧ isDelim d) := by
@@ -278,18 +278,35 @@ theorem accepts_decomp {s : Str} (h : Accepts R s) (hnl : s.getLast? ≠ some '\
       exact ⟨ls ++ [':'], by simp [e1], Or.inr ⟨ls, rfl, hls⟩⟩
   obtain ⟨pr, es, hpr'⟩ := hprd
   -- userinfo
-  have huid : ∃ ui, s3 = ui ++ (H ++ s5) ∧ (ui = [] ∨ ∃ w, ui = w ++ ['@']) := by
+  have huid : ∃ ui, s3 = ui ++ (H ++ s5) ∧
+      (ui = [] ∨ ∃ w, ui = w ++ ['@'] ∧ ∀ c ∈ w, cNonSpace.mem c = true) := by
     rcases match_opt_iff.mp hui with e | hp
     · exact ⟨[], by simpa using e, Or.inl rfl⟩
     · unfold uiRe at hp
       obtain ⟨m, h1, h2⟩ := match_seq_iff.mp hp
       obtain ⟨m2, h3, h4⟩ := match_seq_iff.mp h2
-      obtain ⟨w1, e1⟩ := Match.suffix h1
-      obtain ⟨w2, e2⟩ := Match.suffix h3
+      obtain ⟨w1, e1, hw1, _, _⟩ := match_rep_cls_iff.mp h1
       obtain ⟨c, e3, hc⟩ := match_cls_iff.mp h4
       rw [cAt_mem] at hc
       subst hc
-      exact ⟨w1 ++ w2 ++ ['@'], by rw [e1, e2, e3]; simp, Or.inr ⟨w1 ++ w2, rfl⟩⟩
+      have hw2 : ∃ w2, m = w2 ++ m2 ∧ ∀ c ∈ w2, cNonSpace.mem c = true := by
+        rcases match_opt_iff.mp h3 with e | hp2
+        · exact ⟨[], by simpa using e, by simp⟩
+        · obtain ⟨m3, h5, h6⟩ := match_seq_iff.mp hp2
+          obtain ⟨c, e5, hc⟩ := match_cls_iff.mp h5
+          obtain ⟨w3, e6, hw3, _, _⟩ := match_rep_cls_iff.mp h6
+          refine ⟨c :: w3, by rw [e5, e6]; simp, ?_⟩
+          intro d hd
+          rcases List.mem_cons.mp hd with rfl | hd
+          · rw [cColon_mem] at hc; subst hc
+            exact cNonSpace_mem (by decide)
+          · exact hw3 d hd
+      obtain ⟨w2, e2, hw2⟩ := hw2
+      refine ⟨w1 ++ w2 ++ ['@'], by rw [e1, e2, e3]; simp, Or.inr ⟨w1 ++ w2, rfl, ?_⟩⟩
+      intro d hd
+      rcases List.mem_append.mp hd with hd | hd
+      · exact hw1 d hd
+      · exact hw2 d hd
   obtain ⟨ui, e3, hui'⟩ := huid
   -- port
   have hpod : ∃ po, s5 = po ++ s6 ∧
